@@ -100,12 +100,12 @@ class C15(Prop):
         caps = irsel.capabilities(irs)
         acc.ev()
         handed_out = remote.supported_modes
-        got_modes = {m.name for m in handed_out}
+        got_modes = {getattr(m, "name", repr(m)) for m in handed_out}
         if isinstance(handed_out, list):
             # a caller may sort / filter the list it was given; the remote's own idea of its modes must not follow
             handed_out.clear()
             handed_out.append(self.dv.ThermostatMode.FAN if "FAN" not in got_modes else self.dv.ThermostatMode.HEAT)
-            again = {m.name for m in remote.supported_modes}
+            again = {getattr(m, "name", repr(m)) for m in remote.supported_modes}
             if again != got_modes:
                 acc.violation("capability:modes-follow-callers-edit", f"{irs['IRSetID']}: after the caller edited the list it had been handed, supported modes are "
                               f"{sorted(again)} (were {sorted(got_modes)})", {"set": irs})
